@@ -319,6 +319,45 @@ def cast_types(xn: Optional[int], xz: Optional[int], yn: Optional[int], ow: bool
     return type(back) is InnerSub and back.z == xz
 
 
+def cast_merged(an: Optional[int], bt: bool, cn: Optional[int], cz: Optional[int], ow: bool) -> bool:
+    """
+    post: _
+    """
+    # the RESULT of a merge is a partial like any other: casting it to the partial class of a subclass
+    # keeps every value, and merging across partial classes of an inheritance chain is associative:
+    # Sub.merge(c, Parent.merge(a, b)) == Sub.merge(Sub.merge(c, a), b)
+    a = mk_inner(PARTIAL, an)                              # Inner.Partial(n=an)
+    b = PI.construct(**({"t": "t"} if bt else {}))         # Inner.Partial(t=...)
+    c = mk_inner(PARTIAL_SUB, cn, cz)                      # InnerSub.Partial(n=cn, z=cz)
+    na, nb, nc = norm(a), norm(b), norm(c)
+    reach()
+    ab = PI.merge(a, b, allow_overwrite=ow)                # disjoint fields: never a conflict
+    sab = _spec(na, nb, ow)
+    if sab[0] != "ok" or norm(ab) != sab[1]:
+        return False
+    cc = PIS.cast(ab)
+    if not isinstance(cc, PIS) or norm(cc) != sab[1] or norm(ab) != sab[1]:
+        return False
+    exp = _spec(nc, sab[1], ow)
+    try:
+        right = ("ok", PIS.merge(c, ab, allow_overwrite=ow))
+    except ValueError:
+        right = ("conflict", None)
+    try:
+        left = ("ok", PIS.merge(PIS.merge(c, a, allow_overwrite=ow), b, allow_overwrite=ow))
+    except ValueError:
+        left = ("conflict", None)
+    if (norm(a), norm(b), norm(c)) != (na, nb, nc):
+        return False
+    if left[0] != exp[0] or right[0] != exp[0]:
+        return False
+    if exp[0] == "conflict":
+        return True
+    if not isinstance(right[1], PIS) or not isinstance(left[1], PIS):
+        return False
+    return norm(left[1]) == exp[1] and norm(right[1]) == exp[1]
+
+
 def shapes(dummy: bool) -> bool:
     """
     post: _
